@@ -13,6 +13,8 @@ from mc import catalog
 
 MODELS = {
     "pacman-default@corridor": ("pacman-default", "pac_man"),
+    # PacMan: ghost 0 on every corridor cell x travel direction (tunnel exits included), all ghosts released
+    "pacman-default@ghosts": ("pacman-default", "pac_man"),
     "rware-tiny-T3@scenarios": ("rware-tiny-T3", "robot_warehouse"),
     "rware-awk-T2@scenarios": ("rware-awk-T2", "robot_warehouse"),
     # two LOADED agents within Manhattan distance 2 of each other, every position x direction pair
@@ -79,6 +81,10 @@ def build_roots(env: Any, model: str, key_seed: int = 0):
         n = len(descs)
         ts = jax.tree_util.tree_map(lambda x: np.repeat(x[None], n, axis=0), ts0)
         stale = True
+    elif fam == "pac_man" and model.endswith("@ghosts"):
+        states, descs = ref.ghost_states(env, s0)
+        ts = ref.corridor_timesteps(env, states)
+        stale = False
     elif fam == "pac_man":
         states, descs = ref.corridor_states(env, s0)
         ts = ref.corridor_timesteps(env, states)
